@@ -215,7 +215,8 @@ def ob_averager(w, P):
     """adds / pops of two clients: the stored pair is (sum, number of completed adds since the last pop)"""
     L = w.L
     w.clock_fn = lambda: 1000.0
-    cA = w.new_cache(None, eviction_policy='none')
+    # with il: every value lives in a file, so a replacing call goes on after its COMMIT (removal of the old file)
+    cA = w.new_cache(None, eviction_policy='none', **({'disk_min_file_size': 0} if P.get('il') else {}))
     cA._con
     cB = w.clone_handle(cA)
     avA, avB = L.recipes.Averager(cA, 'lat'), L.recipes.Averager(cB, 'lat')
@@ -240,11 +241,27 @@ def ob_averager(w, P):
             res['B'] = do(avB, opB, xb)
         finally:
             w.pid, w.tid = old
-    w.interfere_at = w.int('at', 0, 30)
-    w.interfere_hook = intruder
-    w.start_events()
-    rA = do(avA, opA, xa)
-    w.stop_events()
+    if P.get('il'):
+        # both calls suspended part-way (two threads sharing one object, or two processes)
+        if P.get('same_object'):
+            avB = L.recipes.Averager(cA, 'lat')
+        box = {}
+
+        def run_a():
+            box['A'] = do(avA, opA, xa)
+
+        def run_b():
+            res['B'] = do(avB, opB, xb)
+        w.start_events()
+        il = w.interleave(run_a, run_b, w.int('at', 0, 16), w.int('at2', 0, 16), id_a=(100, 1), id_b=(100, 2) if P.get('same_object') else (200, 1))
+        w.stop_events()
+        rA = box['A']
+    else:
+        w.interfere_at = w.int('at', 0, 30)
+        w.interfere_hook = intruder
+        w.start_events()
+        rA = do(avA, opA, xa)
+        w.stop_events()
     final = cA.get('lat', default=(0.0, 0))
     cl = []
 
@@ -357,6 +374,212 @@ class NoProgress(Exception):
     pass
 
 
+def ob_lock_busy_release(w, P):
+    """the holder releases while the write lock of the cache (the key's shard) is busy for the first k attempts -- another
+    client is in the middle of a transaction: release() waits and, once it has returned, the resource really is free (the
+    next acquirer gets it at its first attempt); acquire() under the same conditions waits and then holds"""
+    L = w.L
+    kind, value = P['kind'], P.get('value', 1)
+    w.clock_fn = lambda: 1000.0
+    sharded = P.get('fanout', False)
+    if sharded:
+        c = L.fanout.FanoutCache(w.dir, shards=2, eviction_policy='none')
+        c2 = L.fanout.FanoutCache(w.dir, shards=2, eviction_policy='none')
+        shards = list(c._shards)
+    else:
+        c = w.new_cache(None, eviction_policy='none')
+        c._con
+        c2 = w.clone_handle(c)
+        shards = [c]
+    lk = make_lock(L, kind, c, value)
+    other = make_lock(L, kind, c2, value)
+    kk = w.int('busy_k', 1, 2)
+    cnt = [0]
+    armed = [False]
+
+    def hook(con):
+        if not armed[0]:
+            return False
+        cnt[0] += 1
+        flag('lock_busy')
+        return bool(kk >= cnt[0])
+    for sh in shards:
+        w.set_busy_hook(sh, hook)
+    cl = []
+    when = P.get('when', 'release')
+    w.start_events()
+    if when == 'acquire':
+        armed[0] = True
+    lk.acquire()
+    armed[0] = False
+    if when == 'acquire':
+        cl.append(('C15', 'acquire waited for the busy cache lock and then holds the resource', cnt[0] > 0))
+    if when == 'release':
+        armed[0] = True
+    lk.release()
+    armed[0] = False
+    w.stop_events()
+    if when == 'release':
+        cl.append(('C15', 'the cache lock really was busy during release', cnt[0] > 0))
+    # the resource is free again: another client acquires at its first attempt (no sleep)
+    w.pid, old = 200, w.pid
+    try:
+        try:
+            w.soft_block = True
+            other.acquire()
+            got = True
+        except (env.WouldBlock, env.Spin):
+            got = False
+    finally:
+        w.pid = old
+        w.soft_block = False
+    cl.append(('C15', 'once release() has returned the resource is free: the next acquirer gets it at once', got))
+    flag('nontrivial')
+    return cl
+
+def ob_lock_il(w, P):
+    """two contenders, both suspended part-way (not well-nested): each runs acquire / critical section / release of the real
+    Lock, RLock or BoundedSemaphore; a contender that polls for the resource, or for the cache's write lock, while the other is
+    suspended lets the other run on.  The witness never sees more holders than the capacity, both finish, and the resource is
+    free afterwards."""
+    L = w.L
+    kind, value = P['kind'], P.get('value', 1)
+    cap = value if kind == 'sem' else 1
+    w.clock_fn = lambda: 1000.0
+    sharded = P.get('fanout', False)
+    same = P.get('same_object', False)
+    if sharded:
+        cA = L.fanout.FanoutCache(w.dir, shards=2, eviction_policy='none')
+        cB = cA if same else L.fanout.FanoutCache(w.dir, shards=2, eviction_policy='none')
+    else:
+        cA = w.new_cache(None, eviction_policy='none')
+        cA._con
+        cB = cA if same else w.clone_handle(cA)
+    lkA, lkB = make_lock(L, kind, cA, value), make_lock(L, kind, cB, value)
+    wit = Witness(cap)
+    done = {}
+
+    def body(name, lk):
+        def run():
+            lk.acquire()
+            wit.enter(name)
+            w.event('cs', 'critical section of %s' % name)
+            wit.leave(name)
+            lk.release()
+            done[name] = True
+        return run
+    w.start_events()
+    il = w.interleave(body('A', lkA), body('B', lkB), w.int('at', 0, P.get('max_events', 14)), w.int('at2', 0, P.get('max_events', 14)),
+                      id_a=(100, 1), id_b=(100, 2) if same else (200, 1))
+    w.stop_events()
+    cl = [('C15', 'never more holders than the capacity', not wit.bad),
+          ('C15', 'both contenders got the resource and finished', done.get('A') is True and (done.get('B') is True or not il.b_started))]
+    # afterwards the resource is free
+    if kind == 'lock':
+        cl.append(('C15', 'the lock is free afterwards', lkA.locked() is False))
+    elif kind == 'sem' and done.get('A') and done.get('B'):
+        left = cA.get('the-lock', default=value)
+        cl.append(('C15', 'every permit is back afterwards (no release lost, none counted twice)', EqR(zv(left), value) if is_num_like(left) else left == value))
+    elif kind == 'rlock' and done.get('A') and done.get('B'):
+        st_ = cA.get('the-lock', default=(None, 0))
+        cl.append(('C15', 'the re-entrant lock is unowned afterwards', st_[1] == 0 if not is_num_like(st_[1]) else EqR(zv(st_[1]), 0)))
+    flag('nontrivial')
+    return cl
+
+def ob_badrel_nested(w, P):
+    """a release by a client that does not hold the resource, issued inside that client's own enclosing transaction block which
+    catches the refusal and commits: the refusal must not have changed anything -- the real holder still holds, nobody else
+    can acquire (RLock, BoundedSemaphore; Cache and FanoutCache)"""
+    L = w.L
+    kind, value = P['kind'], P.get('value', 1)
+    w.clock_fn = lambda: 1000.0
+    if P.get('fanout'):
+        cA = L.fanout.FanoutCache(w.dir, shards=2, eviction_policy='none')
+        cB = L.fanout.FanoutCache(w.dir, shards=2, eviction_policy='none')
+    else:
+        cA = w.new_cache(None, eviction_policy='none')
+        cA._con
+        cB = w.clone_handle(cA)
+    lkA, lkB = make_lock(L, kind, cA, value), make_lock(L, kind, cB, value)
+    cl = []
+    # a semaphore has no owners: a release is refused only when no permit is out
+    held = bool(w.bool('holder_present')) if kind != 'sem' else False
+    w.start_events()
+    if held:
+        for _ in range(value if kind == 'sem' else 1):
+            lkA.acquire()
+    before = cA.get('the-lock', default='absent')
+    w.pid, old = 200, w.pid
+    refused = False
+    try:
+        with cB.transact():
+            cB.set('unrelated', 1)
+            try:
+                lkB.release()
+            except AssertionError:
+                refused = True
+    finally:
+        w.pid = old
+    w.stop_events()
+    after = cA.get('the-lock', default='absent')
+    cl.append(('C15', 'a release by a client that does not hold the resource is refused', refused))
+
+    def same(a, b):
+        if isinstance(a, tuple) and isinstance(b, tuple):
+            return len(a) == len(b) and all(same(p, q) for p, q in zip(a, b))
+        if is_num_like(a) and is_num_like(b):
+            return sx.simp(EqR(zv(a), zv(b))) is True
+        return a == b
+    cl.append(('C15,C06', 'and changes nothing, also when the surrounding block of the refused client commits (%r -> %r)' % (before, after), same(before, after)))
+    cl.append(('C15,C06', "the surrounding block's own write is there", cA.get('unrelated', default=None) is not None))
+    flag('nontrivial')
+    return cl
+
+def ob_averager_busy(w, P):
+    """Averager.add / get / pop while the write lock of the cache (shard) is busy for the first k attempts: every operation
+    waits (they all ask for retry) -- no add is lost, pop returns the mean and really clears the entry; Cache and FanoutCache"""
+    L = w.L
+    w.clock_fn = lambda: 1000.0
+    if P.get('fanout'):
+        c = L.fanout.FanoutCache(w.dir, shards=2, eviction_policy='none')
+        shards = list(c._shards)
+    else:
+        c = w.new_cache(None, eviction_policy='none')
+        c._con
+        shards = [c]
+    av = L.recipes.Averager(c, 'lat')
+    av.add(2.0)
+    kk = w.int('busy_k', 1, 2)
+    cnt = [0]
+
+    def hook(con):
+        cnt[0] += 1
+        flag('lock_busy')
+        return bool(kk >= cnt[0])
+    op = P['op']
+    for sh in shards:
+        w.set_busy_hook(sh, hook)
+    w.start_events()
+    if op == 'add':
+        r = av.add(4.0)
+    elif op == 'pop':
+        r = av.pop()
+    else:
+        r = av.get()
+    w.stop_events()
+    for sh in shards:
+        w.set_busy_hook(sh, None)
+    cl = []
+    if op == 'add':
+        cl.append(('C20,C14', 'an add that met a busy lock is counted', av.get() == 3.0))
+    elif op == 'pop':
+        cl.append(('C20,C14', 'a pop that met a busy lock returns the mean', r == 2.0))
+        cl.append(('C20,C14', 'and has cleared the entry (the next window starts empty)', av.get() is None))
+    else:
+        cl.append(('C20,C14', 'get returns the mean', r == 2.0))
+    flag('nontrivial')
+    return cl
+
 def jobs(tier):
     out = []
     LF = ['recipes.Lock.acquire', 'recipes.Lock.release', 'recipes.RLock.acquire', 'recipes.RLock.release', 'recipes.BoundedSemaphore.acquire', 'recipes.BoundedSemaphore.release',
@@ -376,12 +599,34 @@ def jobs(tier):
         out.append(dict(id='lock.%s.three' % kind, func='ob_lock', params=dict(kind=kind, prog='acq,cs,rel', three=True, value=2 if kind == 'sem' else 1), tags=['C15'],
                         functions=LF, weight=40, twin=False, must_reach=['interfered2']))
         out.append(dict(id='lock.%s.fanout' % kind, func='ob_lock', params=dict(kind=kind, prog='acq,cs,rel', fanout=True, value=1), tags=['C15'], functions=LF, weight=10, twin=False))
+    for kind in ('lock', 'rlock', 'sem'):
+        for fan in (False, True):
+            for when in ('release', 'acquire'):
+                out.append(dict(id='lock.%s.busy.%s%s' % (kind, when, '.fanout' if fan else ''), func='ob_lock_busy_release', params=dict(kind=kind, fanout=fan, when=when), tags=['C15', 'C14'],
+                                functions=LF + ['fanout.FanoutCache.delete', 'fanout.FanoutCache.add'], weight=4, twin=False, must_reach=['lock_busy']))
+    for kind in ('lock', 'rlock', 'sem'):
+        for same in (False, True):
+            for v in ((1, 2) if kind == 'sem' else (1,)):
+                out.append(dict(id='lock.%s.il.%s.v%d' % (kind, 'thread' if same else 'process', v), func='ob_lock_il', params=dict(kind=kind, same_object=same, value=v), tags=['C15'],
+                                functions=LF, weight=10, twin=False, must_reach=['both_suspended']))
+        out.append(dict(id='lock.%s.il.fanout' % kind, func='ob_lock_il', params=dict(kind=kind, fanout=True, value=1), tags=['C15'], functions=LF, weight=10, twin=False, must_reach=['both_suspended']))
+    for kind in ('rlock', 'sem'):
+        for fan in (False, True):
+            out.append(dict(id='lock.%s.badrel.nested%s' % (kind, '.fanout' if fan else ''), func='ob_badrel_nested', params=dict(kind=kind, fanout=fan, value=1), tags=['C15', 'C06'], functions=LF, weight=4, twin=False))
     out.append(dict(id='lock.barrier', func='ob_barrier', params={}, tags=['C15'], functions=LF, weight=5, twin=False, must_reach=['intruder_acquired']))
     AF = ['recipes.Averager.add', 'recipes.Averager.get', 'recipes.Averager.pop', 'core.Cache.transact']
     for a, b in [('add', 'add'), ('add', 'pop'), ('pop', 'add'), ('add', 'get'), ('pop', 'pop'), ('get', 'add')]:
         for pre in ([], [2.0]):
             out.append(dict(id='averager.%s.%s.pre%d' % (a, b, len(pre)), func='ob_averager', params=dict(a=a, b=b, pre=pre), tags=['C20', 'C05'], functions=AF, weight=4, twin=False,
                             must_reach=['interleaved']))
+    for a, b in [('add', 'add'), ('add', 'pop'), ('pop', 'add')]:
+        for same in (True, False):
+            out.append(dict(id='averager.il.%s.%s.%s' % (a, b, 'thread' if same else 'process'), func='ob_averager', params=dict(a=a, b=b, pre=[2.0], il=True, same_object=same), tags=['C20', 'C05'],
+                            functions=AF + ['core.Cache._transact'], weight=8, twin=False, must_reach=['both_suspended']))
+    for op in ('add', 'pop', 'get'):
+        for fan in (False, True):
+            out.append(dict(id='averager.busy.%s%s' % (op, '.fanout' if fan else ''), func='ob_averager_busy', params=dict(op=op, fanout=fan), tags=['C20', 'C14'],
+                            functions=AF + ['fanout.FanoutCache.pop', 'fanout.FanoutCache.get', 'fanout.FanoutCache.set'], weight=3, twin=False, must_reach=['lock_busy'] if op != 'get' else []))
     Ks = [3, 4] if tier == 'quick' else [3, 4, 5, 6]
     for K in Ks:
         for (c, s_) in [(1, 1), (2, 1), (1, 2), (3, 2)]:
